@@ -4,7 +4,7 @@ From ZV Require Import Base.Bytes Base.Res C16.Model C16.LineFacts.
 From Coq Require Import Lia.
 
 (* everything about a server state except the chunking of what it has not consumed yet *)
-Definition sview (s : server) : sstep * bytes * option N * bool * view :=
+Definition sview (s : server) : hstep * bytes * option N * bool * view :=
   (s_step s, s_guid s, s_client_uid s, s_can_pass_fd s, view_of (s_common s)).
 
 Definition swf (s : server) : Prop := in_contract (s_common s).
